@@ -519,7 +519,14 @@ def eval_exact(t, env=None, prims=None):
         return eval_exact(t[2] if eval_exact(t[1], env, prims) else t[3], env, prims)
     if h == "cmp":
         a, b = eval_exact(t[2], env, prims), eval_exact(t[3], env, prims)
-        return {"Eq": a == b, "NotEq": a != b, "Lt": a < b, "LtE": a <= b, "Gt": a > b, "GtE": a >= b}[t[1]]
+        import operator as _op
+        f_ = {"Eq": _op.eq, "NotEq": _op.ne, "Lt": _op.lt, "LtE": _op.le, "Gt": _op.gt, "GtE": _op.ge}.get(t[1])
+        if f_ is None:
+            raise NotEvaluable("comparison %s" % t[1])
+        try:
+            return f_(a, b)
+        except TypeError:
+            raise NotEvaluable("comparison of %s with %s" % (type(a).__name__, type(b).__name__))
     if h == "and":
         return all(eval_exact(x, env, prims) for x in t[1:])
     if h == "or":
@@ -529,8 +536,10 @@ def eval_exact(t, env=None, prims=None):
     if h == "call":
         if t[1] == "bool" and len(t) == 3:
             return bool(eval_exact(t[2], env, prims))
-        if t[1] in ("floor", "int", "abs", "mod", "float", "round"):
+        if t[1] in ("floor", "int", "abs", "mod", "float", "round", "floordiv"):
             args = [eval_exact(x, env, prims) for x in t[2:]]
+            if t[1] == "floordiv" and len(args) == 2 and args[1] != 0:
+                return Fraction(args[0] // args[1])
             if t[1] == "floor":
                 return Fraction(math.floor(args[0]))
             if t[1] == "int":
